@@ -242,6 +242,11 @@ def w_sbml(case):
     if case['model'] != 'koch' and case.get('route'):
         m.set_administration('central', direct=case['route'] == 'direct')
         m.set_dosing_regimen(2.0, start=0.2, duration=0.4, period=1.0, num=2)
+    if case.get('rename'):
+        # user-chosen names for one / all mechanistic parameters
+        old = m.parameters()
+        sub = old[1:2] if case['rename'] == 'one' else old
+        m.set_parameter_names({n: 'renamed %d' % i for i, n in enumerate(sub)})
     if case.get('pre_sens'):
         m.enable_sensitivities(True)
     ll = chi.LogLikelihood(m, ems, obs, times)
@@ -256,8 +261,9 @@ def w_sbml(case):
         ll.fix_parameters({names[i]: float(x_full[i]) for i in fixed})
     free = [i for i in range(n_full) if i not in fixed]
     x = x_full[free]
-    lab = 'SBML %s route=%s pre_sens=%s fixed=%s' % (
-        case['model'], case.get('route'), case.get('pre_sens'), fixed)
+    lab = 'SBML %s route=%s pre_sens=%s fixed=%s renamed=%s' % (
+        case['model'], case.get('route'), case.get('pre_sens'), fixed,
+        case.get('rename'))
     out = check_pair(viol, lab, ll, ll.evaluateS1, x, None, len(free))
     # one injected solver failure: both evaluations report -inf, later ones recover
     if case.get('inject'):
@@ -391,13 +397,16 @@ def build(tier, seed):
                 if tier == 'thorough':
                     fixes += [[i] for i in range(1, nf - 1)] + [[0, nf - 2]]
                 for fx in fixes:
-                    sb.append({'model': model, 'route': route, 'pre_sens': pre,
-                               'fix': fx, 'inject': not fx, 'seed': seed})
+                    for ren in (None, 'one', 'all'):
+                        sb.append({'model': model, 'route': route, 'pre_sens': pre,
+                                   'fix': fx, 'inject': not fx and ren is None,
+                                   'seed': seed, 'rename': ren})
     return {
         'parts': [
             Part('sbml', sb, w_sbml,
                  'SBML-driven likelihoods on the solver stand-in: models x routes x '
-                 'pre-enabled sensitivities x fixed subsets x injected failure'),
+                 'pre-enabled sensitivities x fixed subsets x renamed parameters x '
+                 'injected failure'),
             Part('fix_histories', hist, w_history,
                  'all sequences over {call, S1, fix, release} up to depth %d'
                  % depth),
